@@ -200,6 +200,7 @@ def thread_jumps(d):
             x = blocks[x]["term"]["target"]
             limit -= 1
         return x
+    call_preds = {}
     for i, b in enumerate(blocks):
         t = b["term"]
         if t["k"] == "goto":
@@ -208,6 +209,12 @@ def thread_jumps(d):
             end = through_empty(tgt)
             if end != tgt:
                 preds.setdefault(end, []).append(i)
+        elif t["k"] == "call" and t.get("target") is not None and not b["cleanup"]:
+            # `?`: the value built by FromResidual::from_residual is the failing variant
+            ce = t.get("callee") or {}
+            if ce.get("name") == "from_residual" and (ce.get("trait") or "").endswith("FromResidual") and not t["dest"]["p"]:
+                end = through_empty(t["target"])
+                call_preds.setdefault(end, []).append(i)
     new_blocks = None
     for j, J in enumerate(blocks):
         t = J["term"]
@@ -226,6 +233,30 @@ def thread_jumps(d):
             local, mode = J["stmts"][0]["rv"]["place"]["l"], "enum"
         if local is None:
             continue
+        if mode == "enum":
+            for pi in call_preds.get(j, []):
+                P = blocks[pi] if new_blocks is None else new_blocks[pi]
+                pt = P["term"]
+                if pt["dest"]["l"] != local:
+                    continue
+                ty = d["locals"][local]["ty"]["s"]
+                val = "1" if ("Result<" in ty or "ControlFlow<" in ty) else ("0" if "Option<" in ty else None)
+                if val is None:
+                    continue
+                target = None
+                for (v, bb) in t["arms"]:
+                    if v == val:
+                        target = bb
+                if target is None:
+                    target = t["otherwise"]
+                if new_blocks is None:
+                    new_blocks = [dict(b) for b in blocks]
+                nt = dict(new_blocks[pi]["term"])
+                nt["target"] = target
+                nt["threaded"] = True
+                new_blocks[pi] = dict(new_blocks[pi])
+                new_blocks[pi]["term"] = nt
+                changed = True
         for pi in preds.get(j, []):
             P = blocks[pi] if new_blocks is None else new_blocks[pi]
             val = None
@@ -303,7 +334,24 @@ def inline_closure_calls(facts, d, memo, rounds=2):
             if rv["k"] == "ref" and not rv["place"]["p"]:
                 return closure_of({"k": "copy", "place": rv["place"]}, depth + 1)
             return None
+        def fnitem_of(op, depth=0):
+            """the function item a callback operand denotes (`region: impl FnOnce() -> R` called with
+            `R::default`), through single-definition copies"""
+            if op["k"] == "const":
+                return op.get("fn")
+            if op["k"] not in ("move", "copy") or op["place"]["p"] or depth > 6:
+                return None
+            ent = defs.get(op["place"]["l"])
+            if ent is None:
+                return None
+            rv = ent[2]["rv"]
+            if rv["k"] in ("use", "cast"):
+                return fnitem_of(rv["op"], depth + 1)
+            if rv["k"] == "ref" and not rv["place"]["p"]:
+                return fnitem_of({"k": "copy", "place": rv["place"]}, depth + 1)
+            return None
         sites = []
+        rewrote = False
         for i, b in enumerate(blocks):
             t = b["term"]
             if t["k"] != "call" or b["cleanup"] or t["target"] is None or len(t["args"]) != 2:
@@ -314,6 +362,23 @@ def inline_closure_calls(facts, d, memo, rounds=2):
                 continue
             c = closure_of(t["args"][0])
             if c is None:
+                fi = fnitem_of(t["args"][0])
+                tup = t["args"][1]
+                ent = defs.get(tup["place"]["l"]) if tup["k"] in ("move", "copy") and not tup["place"]["p"] else None
+                if fi is not None and ((ent is not None and ent[2]["rv"]["k"] == "aggregate" and
+                                        ent[2]["rv"].get("agg") == "tuple") or tup["k"] == "const"):
+                    # a plain function used as the callback: call it directly
+                    nt = dict(t)
+                    nt["callee"] = fi
+                    nt["args"] = list(ent[2]["rv"]["ops"]) if ent is not None else []
+                    nb = dict(b)
+                    nb["term"] = nt
+                    if not rewrote:
+                        d = dict(d)
+                        d["blocks"] = [dict(x) for x in blocks]
+                        blocks = d["blocks"]
+                        rewrote = True
+                    blocks[i] = nb
                 continue
             raw = facts.raw_bodies.get(c[2])
             if raw is None or len(raw["blocks"]) > MAX_BLOCKS:
